@@ -430,20 +430,21 @@ def canaries():
 
 
 def parts(tier):
-    n = 7 if tier == 'quick' else 9
+    n = 7 if tier == 'quick' else 8
     out = []
     for name in ('Select', 'Poll', 'EPoll'):
-        out.append(Part(name, make_harness(name, n, max_conns=1 if tier == 'quick' else 2),
-                        bounds={'poller': name, 'history_length': n, 'connections': 1 if tier == 'quick' else 2,
+        out.append(Part(name, make_harness(name, n, max_conns=1),
+                        bounds={'poller': name, 'history_length': n, 'connections': 1,
                                 'ops': 'connect/send/fin/rst/block/unblock/write/close (also late)/iterate'},
                         encoded=ENC, budget_s=85 if tier == 'quick' else 1500))
     for name in ('Select', 'Poll', 'EPoll'):
-        out.append(Part('client-' + name, make_client_harness(name, 5 if tier == 'quick' else 7),
-                        bounds={'poller': name, 'side': 'TCPClient', 'history_length': 5 if tier == 'quick' else 7, 'ops': 'send/fin/rst/block/unblock/write/close/iterate'},
+        out.append(Part('client-' + name, make_client_harness(name, 5 if tier == 'quick' else 6),
+                        bounds={'poller': name, 'side': 'TCPClient', 'history_length': 5 if tier == 'quick' else 6, 'ops': 'send/fin/rst/block/unblock/write/close/iterate'},
                         encoded=[SK.Client._read, SK.Client._close, SK.Client.close, SK.Client.write], budget_s=85 if tier == 'quick' else 1200))
-    if tier == 'quick':
-        for name in ('Select', 'Poll', 'EPoll'):
-            out.append(Part('two-connections-' + name, make_harness(name, 5, max_conns=2), bounds={'poller': name, 'history_length': 5, 'connections': 2}, encoded=ENC, budget_s=85))
+    n2 = 5 if tier == 'quick' else 6
+    for name in ('Select', 'Poll', 'EPoll'):
+        out.append(Part('two-connections-' + name, make_harness(name, n2, max_conns=2), bounds={'poller': name, 'history_length': n2, 'connections': 2}, encoded=ENC,
+                        budget_s=85 if tier == 'quick' else 900))
     return out
 
 
